@@ -854,6 +854,14 @@ func (x *Exec) evalCall(env *Env, e *Expr) (Val, error) {
 			return UF(e.Args[0].Str, SStr, as...), nil
 		}
 		return UF(e.Args[0].Str, SBytes, as...), nil
+	case "coinsof": // coinsof(list): the sdk.Coins value of a []sdk.Coin list (what sdk.NewCoins(list...) returns)
+		if err := need(1); err != nil {
+			return nil, err
+		}
+		if u := unwrapCoinsSlice(args[0]); u.Sort == SCoins {
+			return u, nil
+		}
+		return UF("coins_of_slice", SCoins, args[0]), nil
 	case "ufb":
 		if len(e.Args) < 1 || e.Args[0].Kind != "str" {
 			return nil, fmt.Errorf("ufb needs a name")
